@@ -126,9 +126,11 @@ def shard(col, module, mode, pop_bound, limit, pairs):
                 if t3.size() == 3 * t.size():
                     tripled[len(groups)] = t.size()
                     groups.append([t3])
+        strategies = STRATEGIES if len(tests) > 20 or pop_bound > 1 else \
+            [x for x in STRATEGIES if x[0] != "SUITE"]     # quick tier: SUITE = CASE + whole-test removal
         for gi, group in enumerate(groups):
             vs = ("unassert-head",) if gi in tripled else variants
-            for (strategy, direction), variant in itertools.product(STRATEGIES, vs):
+            for (strategy, direction), variant in itertools.product(strategies, vs):
                 suite = pipe.suite(group)
                 data = {"module": module, "mode": mode, "strategy": strategy, "direction": direction,
                         "tests": [t.to_code() for t in group], "pop_bound": pop_bound, "variant": variant}
